@@ -866,7 +866,18 @@ func c01Scenarios(res *eng.Result, ss *sigSet) {
 		{"max-elements-list-to-unbounded", "list", "li", "max-elements 5;", "max-elements unbounded;", false},
 		{"max-elements-list-from-unbounded", "list", "li", "max-elements unbounded;", "max-elements 7;", false},
 		{"default-to-empty", "leaf", "l", `default "1";`, `default "";`, false},
+		// leaves typed by a typedef that brings units and a default: every copy keeps what the
+		// typedef gives and it does not state itself
+		{"default-over-typedef", "tdu-leaf", "l", `default "1";`, `default "2";`, false},
+		{"description-on-typedef-leaf", "tdu-leaf", "l", `description "d0";`, `description "d1";`, false},
+		{"default-over-typedef-own-units", "tdu-leaf-own-units", "l", `default "1";`, `default "2";`, false},
+		{"description-on-typedef-leaf-own-units", "tdu-leaf-own-units", "l", `description "d0";`, `description "d1";`, false},
+		{"description-on-typedef-leaf-own-default", "tdu-leaf-own-default", "l", `description "d0";`, `description "d1";`, false},
+		{"config-on-typedef-leaf-list", "tdu-leaf-list", "ll", "config true;", "config false;", false},
+		{"default-over-units-only-typedef", "tu-leaf", "l", `default "1";`, `default "2";`, false},
+		{"description-on-default-only-typedef-leaf", "td-leaf", "l", `description "d0";`, `description "d1";`, false},
 	}
+	tdefs := `typedef tdu { type string; units "tu"; default "td"; } typedef tu { type int32; units "only-units"; } typedef td { type string; default "only-default"; } `
 	body := func(p rprop, stmt string) string {
 		switch p.kind {
 		case "container":
@@ -879,6 +890,18 @@ func c01Scenarios(res *eng.Result, ss *sigSet) {
 			return "leaf-list ll { type string; " + stmt + " } leaf o { type string; }"
 		case "list":
 			return "list li { key k; " + stmt + " leaf k { type string; } } leaf o { type string; }"
+		case "tdu-leaf":
+			return "leaf l { type tdu; " + stmt + " } leaf o { type tdu; }"
+		case "tdu-leaf-own-units":
+			return "leaf l { type tdu; units \"lu\"; " + stmt + " } leaf o { type tdu; }"
+		case "tdu-leaf-own-default":
+			return "leaf l { type tdu; default \"ld\"; " + stmt + " } leaf o { type tdu; }"
+		case "tdu-leaf-list":
+			return "leaf-list ll { type tu; " + stmt + " } leaf o { type tu; units \"ou\"; }"
+		case "tu-leaf":
+			return "leaf l { type tu; " + stmt + " } leaf o { type tu; }"
+		case "td-leaf":
+			return "leaf l { type td; " + stmt + " } leaf o { type td; units \"ou\"; }"
 		}
 		panic(p.kind)
 	}
@@ -890,6 +913,10 @@ func c01Scenarios(res *eng.Result, ss *sigSet) {
 					v0 = p.v0
 				}
 				var inl, fac strings.Builder
+				if strings.Contains(p.kind, "-leaf") && strings.HasPrefix(p.kind, "t") {
+					inl.WriteString(tdefs)
+					fac.WriteString(tdefs)
+				}
 				fac.WriteString("grouping g { " + body(p, v0) + " } ")
 				for u := 0; u < 3; u++ {
 					name := string(rune('a' + u))
